@@ -201,10 +201,10 @@ func NewProofStructure(index, sign int, factor uint, bound *big.Int, splitter Sq
 			return nil, errors.New("factor must be 1")
 		}
 		// Not all numbers can be written as sum of 3 squares, but n for which n == 2 (mod 4) can
-		// so ensure that factor*m-bound falls into that category
+		// so ensure that sign*(factor*m-bound) falls into that category: 4*sign*(factor*m-bound)+2
 		factor *= 4
 		bound = new(big.Int).Mul(bound, big.NewInt(4)) // ensure we dont overwrite callers copy of bound
-		bound.Sub(bound, big.NewInt(2))
+		bound.Sub(bound, big.NewInt(int64(2*sign)))
 	}
 
 	return newWithParams(index, sign, factor, bound, splitter, splitter.SquareCount(), splitter.Ld())
@@ -445,7 +445,7 @@ func (p *Proof) ProvesStatement(sign int, factor uint, bound *big.Int) bool {
 	if len(p.Cs) == 3 {
 		factor *= 4
 		bound = new(big.Int).Mul(bound, big.NewInt(4))
-		bound.Sub(bound, big.NewInt(2))
+		bound.Sub(bound, big.NewInt(int64(2*sign)))
 	}
 	return p.Sign == sign && p.A == factor &&
 		(p.K.Cmp(bound) == 0 || p.K.Cmp(bound) == sign)
@@ -469,7 +469,10 @@ func (p *Proof) ProvenStatement() (StatementType, uint, *big.Int) {
 	bound := new(big.Int).Set(p.K)
 	factor := p.A
 	if len(p.Cs) == 3 {
-		bound.Add(bound, big.NewInt(2)).Rsh(bound, 2)
+		// The proof shows sign*(4*m - K) >= 0, i.e. m >= ceil(K/4) or m <= floor(K/4); for K as
+		// constructed by NewProofStructure (4*bound - 2*sign) the below recovers bound exactly, and
+		// for any other K it never claims more than what was proven.
+		bound.Add(bound, big.NewInt(int64(1+p.Sign))).Rsh(bound, 2)
 		factor >>= 2
 	}
 	var typ StatementType
